@@ -112,12 +112,12 @@ class C09(Prop):
                     if i % nshards == shard:
                         yield {"shape": sh[0], "step": step, "fault": list(fault), "enumerated": True}
                     i += 1
-        n_hist = {"quick": 1_600, "thorough": 30_000}[tier]
+        n_hist = {"quick": 1_600, "thorough": 120_000}[tier]
         for j in range(n_hist):
             if i % nshards == shard:
                 yield {"history": True, "seed": f"{seed}/h{j}", "type": 1 + j % 2}
             i += 1
-        n_rand = {"quick": 40_000, "thorough": 400_000}[tier]
+        n_rand = {"quick": 40_000, "thorough": 1_600_000}[tier]
         for j in range(n_rand):
             if i % nshards == shard:
                 r = env.rng("C09", seed, j)
